@@ -443,17 +443,18 @@ def _envelope_fault(doc, ch):
                 x.vals[1] = list(st_.vals[1])
                 break
     elif kind == 'se-id':
-        pick('SE').vals[1] = ['9999']
+        pick('SE').vals[1] = [ch.choice(['9999', '9999', 'ST.9', 'GS.9'])]
     elif kind == 'ge-count':
         s = pick('GE')
         s.vals[0] = [str(int(s.vals[0][0]) + 1) if s.vals[0][0].isdigit() else '9']
     elif kind == 'ge-id':
-        pick('GE').vals[1] = ['77']
+        # (a value that names another envelope segment: messages echo values)
+        pick('GE').vals[1] = [ch.choice(['77', '77', '17GS', 'GS1.5', 'ISA7.'])]
     elif kind == 'iea-count':
         s = pick('IEA')
         s.vals[0] = [str(int(s.vals[0][0]) + 1) if s.vals[0][0].isdigit() else '9']
     elif kind == 'iea-id':
-        pick('IEA').vals[1] = ['000000099']
+        pick('IEA').vals[1] = [ch.choice(['000000099', '000000099', 'ISA00009.', '00GS0009.'])]
     elif kind == 'gs-date':
         pick('GS').vals[3] = ['20041301']
     elif kind == 'gs-time':
